@@ -169,6 +169,14 @@ func execC14entry(x *X) {
 				args, in = []string{"build", "--type", Pick(RNG(op.I, 1, 2), []string{"bill.Invoice", "org.Party", "nope.Nothing", ""}), "-"}, docOnly
 			case "build-set":
 				args, in = []string{"build", "--set", "currency=ZZZ", "--set-string", "code=9", "--set", ".=x", "-"}, docOnly
+				switch op.J % 4 {
+				case 1:
+					args = []string{"build", "--set", "=foo", "-"}
+				case 2:
+					args = []string{"build", "--set-string", "=foo", "--set", "a..b=1", "-"}
+				case 3:
+					args = []string{"build", "--set", `\.=1`, "--set-string", ".=", "--set-file", "x=" + filepath.Join(dir, "missing.yaml"), "-"}
+				}
 			case "validate":
 				args = []string{"validate", "-"}
 			case "sign":
